@@ -5,15 +5,18 @@ EXTENDS PlacementOps, Json, IOUtils
 Events == JsonDeserialize(IOEnv.TRACE_FILE)
 (* results are logged in the model's encoding: arrays as sequences of rows (1-based here),      *)
 (* cutout/multiply cells as <<"d", v>> / <<"f">> / <<"z">>, "none" for None                      *)
-Shift(f) == IF f = None THEN "none" ELSE [j \in 1..Len(DOMAIN f) |-> [i \in 1..Len(DOMAIN f[j - 1]) |-> f[j - 1][i - 1]]]
-Len0(S) == Cardinality(S)
-Rows(f, n, m) == IF f = None THEN "none" ELSE [j \in 1..n |-> [i \in 1..m |-> f[j - 1][i - 1]]]
+Rows(f, n, m) == IF f = None THEN <<>> ELSE [j \in 1..n |-> [i \in 1..m |-> f[j - 1][i - 1]]]
+IsNone(e) == CASE e.op = "to_image" -> ToImageRef(e.box, e.pat, e.h, e.w) = None
+                [] e.op = "cutout" -> CutoutRef(e.box, e.h, e.w) = None
+                [] e.op = "multiply" -> MultiplyRef(e.box, e.pat, e.h, e.w) = None
+                [] OTHER -> FALSE
 Expected(e) ==
   CASE e.op = "to_image" -> Rows(ToImageRef(e.box, e.pat, e.h, e.w), e.h, e.w)
     [] e.op = "cutout" -> Rows(CutoutRef(e.box, e.h, e.w), NY(e.box), NX(e.box))
     [] e.op = "multiply" -> Rows(MultiplyRef(e.box, e.pat, e.h, e.w), NY(e.box), NX(e.box))
     [] e.op = "get_values" -> ValuesRef(e.box, e.pat, e.h, e.w, e.arg)
-Verdict(e) == IF e.res = Expected(e) THEN "ok" ELSE e.op \o ":differs_from_placement"
+Verdict(e) == IF e.isnone # IsNone(e) THEN e.op \o ":none_iff_no_overlap"
+              ELSE IF e.isnone \/ e.res = Expected(e) THEN "ok" ELSE e.op \o ":differs_from_placement"
 VARIABLES i, verdict
 Init == i \in 1..Len(Events) /\ verdict = Verdict(Events[i])
 Next == UNCHANGED <<i, verdict>>
